@@ -236,6 +236,36 @@ func c10(r *engine.Report, p *engine.Program) {
 	} else {
 		okPl = false
 	}
+	// the socket only carries the budget: WriteTo decides nothing on it (budget 0 still reaches a
+	// destination at distance 0)
+	if wt := p.Func("(*netceptor.PacketConn).WriteTo"); wt != nil {
+		hopF := p.Field("netceptor", "PacketConn", "hopsToLive")
+		var bad []string
+		for _, i := range engine.Ifs(wt) {
+			var stack []ssa.Value
+			stack = append(stack, i.Cond)
+			for len(stack) > 0 {
+				v := stack[len(stack)-1]
+				stack = stack[:len(stack)-1]
+				if f, _ := engine.FieldOfLoad(v); f == hopF && hopF != nil {
+					bad = append(bad, p.Pos(i.Cond.Pos()))
+				}
+				switch x := v.(type) {
+				case *ssa.BinOp:
+					stack = append(stack, x.X, x.Y)
+				case *ssa.UnOp:
+					if x.Op == token.NOT {
+						stack = append(stack, x.X)
+					}
+				case *ssa.Convert:
+					stack = append(stack, x.X)
+				}
+			}
+		}
+		r.Check("R4-budget-writers", "PacketConn.WriteTo: no branch on the socket's hop budget", wt.Pos(), len(bad) == 0,
+			"WriteTo passes pc.hopsToLive on and decides nothing on it: whether a budget suffices is decided where the distance is known (forwardMessage)",
+			fmt.Sprintf("WriteTo branches on pc.hopsToLive at %v: e.g. budget 0 is refused although a destination at distance 0 (the local node) needs no forwarding", bad))
+	}
 	r.Check("R4-budget-writers", "PacketConn: hop budget plumbing", token.NoPos, okPl, "WriteTo sends with the socket's hopsToLive, which SetHopsToLive sets to the caller's value unchanged", "the socket's hop budget is altered between SetHopsToLive and the send")
 	// the encoder writes msg.HopsToLive at byte 1
 	okEnc := false
